@@ -115,6 +115,8 @@ def main() -> int:
         if str(i) in results and results[str(i)] != res:
             mismatches.append(i)
         results[str(i)] = res
+        if mismatches or res.get("arg_history_ok") is False or res.get("doc") != res.get("doc_again") or res.get("page") != res.get("page_again"):
+            break  # an inconsistency inside this process: report at once (a broken library may also get slower and slower)
     json.dump({"results": results, "mismatches": mismatches, "hashseed": __import__("os").environ.get("PYTHONHASHSEED")}, sys.stdout)
     return 0
 
